@@ -92,10 +92,21 @@ func rep(s string, n int) string { return strings.Repeat(s, n) }
 
 // stringVals returns the string alphabet limited to max characters (UTF-16 units, the unit
 // vanilla limits strings in); max<=0 means the protocol default 32767.
+var stringValsCache = map[int][]Val{}
+
 func stringVals(max int) []Val {
 	if max <= 0 {
 		max = 32767
 	}
+	if c, ok := stringValsCache[max]; ok {
+		return c
+	}
+	out := stringVals0(max)
+	stringValsCache[max] = out
+	return out
+}
+
+func stringVals0(max int) []Val {
 	cands := []struct {
 		label string
 		s     string
@@ -282,7 +293,12 @@ func components() []struct {
 	}{
 		{"text-empty", func() component.Component { return &component.Text{Content: ""} }},
 		{"text", func() component.Component { return &component.Text{Content: "hello"} }},
-		{"text-utf8+escapes", func() component.Component { return &component.Text{Content: "ä€😀\"\\\n"} }},
+		{"text-utf8", func() component.Component { return &component.Text{Content: "ä€😀"} }},
+		{"text-newline", func() component.Component { return &component.Text{Content: "line1\nline2"} }},
+		{"text-backslash", func() component.Component { return &component.Text{Content: "back\\slash"} }},
+		{"text-quotes", func() component.Component { return &component.Text{Content: "say \"hi\" it's"} }},
+		{"text-yaml-keyword", func() component.Component { return &component.Text{Content: "null"} }},
+		{"text-number-like", func() component.Component { return &component.Text{Content: "1e3"} }},
 		{"styled", func() component.Component {
 			return &component.Text{Content: "styled", S: component.Style{Bold: component.True, Italic: component.False, Color: color.Red}}
 		}},
@@ -453,9 +469,6 @@ func upsertActionVals(p proto.Protocol) []Val {
 	out = append(out, vf("actions:latency-before-gamemode", func() any {
 		return []playerinfo.UpsertAction{playerinfo.UpdateLatencyAction, playerinfo.UpdateGameModeAction}
 	}))
-	out = append(out, vf("actions:duplicate", func() any {
-		return []playerinfo.UpsertAction{playerinfo.UpdateGameModeAction, playerinfo.UpdateGameModeAction}
-	}))
 	return out
 }
 
@@ -499,7 +512,7 @@ func argsMapVals() []Val {
 	return []Val{
 		vf("args:empty", func() any { return map[string][]byte(nil) }),
 		vf("args:1", func() any { return map[string][]byte{"arg1": seqBytes(256)} }),
-		vf("args:2", func() any { return map[string][]byte{"a": seqBytes(1), "sixteen-chars-arg": seqBytes(300)[:300]} }),
+		vf("args:2", func() any { return map[string][]byte{"a": seqBytes(1), "sixteen-chars-ar": seqBytes(300)[:300]} }),
 		vf("args:8", func() any {
 			m := map[string][]byte{}
 			for i := 0; i < 8; i++ {
